@@ -309,3 +309,50 @@ def _plist_clean(v):
 
 def to_plist(r, v):
     return plistlib.dumps(_plist_clean(v), fmt=plistlib.FMT_XML, sort_keys=False).decode("utf-8")
+
+
+# ------------------------------------------------------------------------------------------------------ richer syntax
+# Valid documents that use more of each format's syntax, so that a torn write can land inside a comment, a CDATA
+# section, an escape, a block scalar, an anchor, a base64 blob ...
+
+def rich_json(r):
+    parts = ['{"e": 1.5e3, "n": -0.0, "big": 12345678901234567890, "u": "\\u00e9\\u65e5 \\ud83d\\ude00", '
+             '"esc": "q\\"t\\\\b\\n\\t/", "nest": [[[[{"k": [null, true, false]}]]]], "empty": [{}, [], ""]}',
+             '[1e-2, 2E+2, {"a": {"b": {"c": {"d": "deep"}}}}, "\\u0041\\u030a", [], {}]',
+             '{"\\u00e9": ["\\u2028", "tab\\there"], "x y": {"": 0}}']
+    return r.choice(parts)
+
+
+def rich_json5(r):
+    parts = ["// leading comment\n{unquoted: 'single', \"dq\": \"d\\\"q\", hex: 0x1F, plus: +1, dot: .5, trail: [1, 2, 3,], /* block\n comment */ inf: Infinity, nan: NaN, multi: 'line \\\ncontinued',}\n",
+             "[ // c1\n  0xAB, -0x10, 1e3, 'ab', \"\\u00e9\", {a: {b: [1, ], c: null}} ]",
+             "/* only a comment first */ {\"k\": [true, false, null], $id: 1, _u: 2, 'q': '\\x41'}"]
+    return r.choice(parts)
+
+
+def rich_yaml(r):
+    parts = ["--- # first document\nanchors:\n  base: &base {a: 1, b: [x, y]}\n  copy: *base\n  merged:\n    <<: *base\n    c: 3\nblock: |\n  literal text\n    indented \u00e9\n  end\nfolded: >-\n  folded\n  text\nquoted: \"esc \\t \\u00e9 \\\" q\"\nsingle: 'it''s'\nflow: [1, 2.5, true, null, {k: v}]\n",
+             "- &a [1, 2]\n- *a\n- ? complex\n  : value\n- !!str 123\n- |+\n  keep\n\n- \"multi\n  line\"\n",
+             "a: 1\n---\nb: [2, 3]\n---\n- c\n- {d: e}\n...\n",
+             "key: value # comment\nlist:\n  - item \u65e5\u672c\n  -   nested:\n        deep: [a, b]\nempty: {}\nnull_value: ~\n"]
+    return r.choice(parts)
+
+
+def rich_xml(r, html=False):
+    root = "html" if html else "root"
+    parts = [f'<?xml version="1.0" encoding="UTF-8"?>\n<!-- header comment -->\n<{root} xmlns:n="urn:x" n:attr="v&amp;w" id=\'s"q\'>\n  <![CDATA[ raw <markup> & text ]]>\n  <n:child a="1">t&#233;xt &lt;&gt; &#x65E5;</n:child>\n  <?pi target data?>\n  <empty/>\n  <mixed>before<b>bold</b>after</mixed>\n</{root}>\n',
+             f'<!DOCTYPE {root} [<!ENTITY e "expanded">]>\n<{root}><a>&e;</a><b c="&e;"/><!-- c --></{root}>',
+             f'<{root}><a><a><a><a deep="1">x</a></a></a></a><a/><a></a></{root}>']
+    return r.choice(parts)
+
+
+def rich_plist(r):
+    return ('<?xml version="1.0" encoding="UTF-8"?>\n<!DOCTYPE plist PUBLIC "-//Apple//DTD PLIST 1.0//EN" '
+            '"http://www.apple.com/DTDs/PropertyList-1.0.dtd">\n<plist version="1.0">\n<dict>\n\t<key>date</key>\n\t'
+            '<date>2020-01-02T03:04:05Z</date>\n\t<key>data</key>\n\t<data>\n\taGVsbG8gd29ybGQ=\n\t</data>\n\t<key>real</key>\n\t'
+            '<real>1.5</real>\n\t<key>neg</key>\n\t<integer>-42</integer>\n\t<key>t</key>\n\t<true/>\n\t<key>f</key>\n\t<false/>\n\t'
+            '<key>arr</key>\n\t<array>\n\t\t<string>a &amp; b \u00e9</string>\n\t\t<array/>\n\t\t<dict/>\n\t</array>\n</dict>\n</plist>\n')
+
+
+RICH = {"json": rich_json, "json5": rich_json5, "yaml": rich_yaml, "xml": rich_xml,
+        "html": lambda r: rich_xml(r, html=True), "plist": rich_plist}
